@@ -36,6 +36,9 @@ type c05bCase struct {
 func c05bRun(c c05bCase) Outcome {
 	var o Outcome
 	res := inBubble(theT, func() { o = c05bRunInBubble(c) })
+	if o, stuck := stuckVerdict(res); stuck {
+		return o
+	}
 	if res.Deadlock != "" {
 		return viol("deadlock", "bubble deadlocked: %s", res.Deadlock)
 	}
